@@ -47,3 +47,18 @@ elif which == "client":
         sys.exit(2)
     open(fp, "w").write(src.replace(old, "for _, id := range verifShardIDs(shards.Shards) {\n\t\t\tshard := shards.Shards[id]"))
     print("seams: 2 map iterations ordered")
+elif which == "gossip":
+    # the transport call of Agent.Send and the shuffle of PeerList are redirected to hooks in
+    # harness/gossip/verif_export.go (the originals are passed along, so the imports stay in use)
+    for path, old, new, n in [
+        ("gossip/agent.go", "_ = a.gossip.SendReliable(dst, wire)", "_ = verifSendReliable(a, dst, wire)", 1),
+        ("gossip/peer.go", "rand.Shuffle(len(l.L), func(i, j int) {", "verifShuffle(l, rand.Shuffle, len(l.L), func(i, j int) {", 1),
+    ]:
+        fp = os.path.join(tree, path)
+        src = open(fp).read()
+        if src.count(old) != n:
+            print("INFRA: seam: %r not found exactly %d time(s) in %s" % (old, n, path))
+            sys.exit(2)
+        open(fp, "w").write(src.replace(old, new))
+    print("seams: 2 gossip sites redirected")
+
